@@ -61,7 +61,7 @@ func (e *Engine) newCtx(fn *ssa.Function, spec *FuncSpec, mode string) *FnCtx {
 		eng: e, sc: sc, ty: NewTypes(sc), fn: fn, spec: spec, mode: mode,
 		assumed: map[string]bool{}, unmodelled: map[string]bool{}, inlined: map[string]bool{},
 		obSeq: map[string]int{}, ghostDecl: map[string]bool{}, maxDepth: 8,
-		nonNil: map[string]bool{}, ranges: map[string]*rangeState{},
+		nonNil: map[string]bool{}, ranges: map[string]*rangeState{}, lastCall: map[string]Val{},
 	}
 	return c
 }
@@ -214,12 +214,20 @@ func (c *FnCtx) runTop(rep *FnReport, kf *KnownFindings) (err error) {
 		}
 		rep.Witness[k] = c.sc.Define("witness", sBool, c.evalBool(env, f.expr))
 	}
-	var replayTerms []string
-	if spec.Replay != nil {
-		for _, a := range spec.Replay.Args {
+	replayTerms := map[*ReplaySpec][]string{}
+	evalReplay := func(rs *ReplaySpec) {
+		var ts []string
+		for _, a := range rs.Args {
 			v := c.eval(env, a)
-			replayTerms = append(replayTerms, c.sc.Define("rp", c.ty.SortOf(v.T), v.E))
+			ts = append(ts, c.sc.Define("rp", c.ty.SortOf(v.T), v.E))
 		}
+		replayTerms[rs] = ts
+	}
+	if spec.Replay != nil {
+		evalReplay(spec.Replay)
+	}
+	for _, rs := range spec.Replays {
+		evalReplay(rs)
 	}
 	vac := c.obligation(st, "vacuity", "requires", "true", fn.Pos())
 	vac.Expect = "sat"
@@ -258,7 +266,19 @@ func (c *FnCtx) runTop(rep *FnReport, kf *KnownFindings) (err error) {
 	end.Goal = rst.guard
 	end.Desc = "some return is reachable under the precondition"
 	for _, o := range c.obs {
-		o.GetVals = replayTerms
+		if o.Replay == nil {
+			continue
+		}
+		// a clause-specific driver wins over the function's default driver
+		if k := strings.LastIndex(o.Name, "#"); k >= 0 {
+			parts := strings.SplitN(o.Name[k+1:], ".", 2)
+			if len(parts) == 2 {
+				if rs, ok := spec.Replays[strings.SplitN(parts[1], "~", 2)[0]]; ok {
+					o.Replay = rs
+				}
+			}
+		}
+		o.GetVals = replayTerms[o.Replay]
 	}
 	return nil
 }
@@ -357,7 +377,7 @@ func (c *FnCtx) assumeAxioms(env *Env, pkg string) {
 		}
 		ne := *env
 		ne.specPkg = ax.Pkg
-		c.sc.Assume(c.evalBool(&ne, ax.E))
+		c.sc.AssumeAxiom(c.evalBool(&ne, ax.E))
 		c.assumed["axiom "+ax.Name+": "+ax.Text] = true
 	}
 }
